@@ -5,6 +5,7 @@ import (
 	"go/constant"
 	"go/token"
 	"go/types"
+	"sort"
 	"strings"
 
 	"golang.org/x/tools/go/ssa"
@@ -549,7 +550,9 @@ func ruleNoRewriteAfterCheck(p *Program, r *Report) {
 	n := 0
 	seenStep := map[*ssa.Call]bool{}
 	ordStep := map[string]int{}
+	var pathOf ssa.Value = pathParam
 	check := func(fn *ssa.Function, sink *ssa.Call, arg ssa.Value) {
+		pathParam := pathOf
 		DependsOn(arg, func(x ssa.Value) bool {
 			c, ok := x.(*ssa.Call)
 			if !ok || seenStep[c] {
@@ -578,25 +581,116 @@ func ruleNoRewriteAfterCheck(p *Program, r *Report) {
 			return false
 		})
 	}
-	r.Fn(FnName(ilf))
-	ForEachInstr(ilf, func(ins ssa.Instruction) {
-		c, ok := ins.(*ssa.Call)
-		if !ok {
+	// the path is followed into the package-local helpers it is handed to (the body moved into a helper)
+	seenFn := map[*ssa.Function]bool{}
+	var analyse func(fn *ssa.Function, prm ssa.Value, depth int)
+	analyse = func(fn *ssa.Function, prm ssa.Value, depth int) {
+		if seenFn[fn] || depth > 2 {
 			return
 		}
-		g := c.Call.StaticCallee()
-		if g == nil || !InRepo(g) {
-			return
-		}
-		for _, a := range c.Call.Args {
-			if b, isB := a.Type().Underlying().(*types.Basic); isB && b.Kind() == types.String && DependsOn(a, func(y ssa.Value) bool { return y == ssa.Value(pathParam) }) {
-				check(ilf, c, a)
+		seenFn[fn] = true
+		r.Fn(FnName(fn))
+		ForEachInstr(fn, func(ins ssa.Instruction) {
+			c, ok := ins.(*ssa.Call)
+			if !ok {
+				return
 			}
-		}
-	})
+			g := c.Call.StaticCallee()
+			if g == nil || !InRepo(g) {
+				return
+			}
+			for i, a := range c.Call.Args {
+				if b, isB := a.Type().Underlying().(*types.Basic); isB && b.Kind() == types.String && DependsOn(a, func(y ssa.Value) bool { return y == prm }) {
+					pathOf = prm
+					check(fn, c, a)
+					if g.Pkg == ilf.Pkg && g != fv && g.Blocks != nil && i < len(g.Params) {
+						analyse(g, g.Params[i], depth+1)
+					}
+				}
+			}
+		})
+	}
+	analyse(ilf, pathParam, 0)
 	if n == 0 {
 		r.Undecided("steps", "no operation on the import path found in importLocalFile (Trim and the root prefixing were confirmed by hand)", ilf.Pos())
 	}
 }
 
 func init() { register("C16", Rule{"R16f", ruleNoRewriteAfterCheck}) }
+
+// R16g: an import-cache key names everything the cached content depends on.  GetOrAddFromCache(ctx, key, add)
+// returns the first value computed under `key` to every later caller.  If the add callback's result depends on a
+// string input of the enclosing function (a path, a source directory, a URL) that the key does not depend on, two
+// imports that differ only in that input share one entry — a nested module's `//{/util}` is answered with the outer
+// module's file.
+func ruleCacheKeyCoversInputs(p *Program, r *Report) {
+	r.Begin("R16g", "cache key covers the inputs: at every call of importcache.GetOrAddFromCache in the module, every string-typed parameter of the enclosing function that the add callback captures (directly or through what it captures) is also an input of the key expression — otherwise imports that differ only in that parameter (the importing script's directory, hence its module root) are served one another's content", 2)
+	defer r.End()
+	goa := p.Func("pkg/importcache", "GetOrAddFromCache")
+	if goa == nil {
+		r.Undecided("anchor", "importcache.GetOrAddFromCache not found", 0)
+		return
+	}
+	strParams := func(fn *ssa.Function, v ssa.Value) map[string]bool {
+		out := map[string]bool{}
+		top := fn
+		for top.Parent() != nil {
+			top = top.Parent()
+		}
+		DependsOn(v, func(x ssa.Value) bool {
+			var prm *ssa.Parameter
+			switch y := x.(type) {
+			case *ssa.Parameter:
+				prm = y
+			case *ssa.Alloc:
+				if q, ok := paramCell(y); ok {
+					prm = q
+				}
+			}
+			if prm != nil {
+				if b, ok := prm.Type().Underlying().(*types.Basic); ok && b.Kind() == types.String {
+					out[prm.Name()] = true
+				}
+			}
+			return false
+		})
+		return out
+	}
+	n := 0
+	for _, fn := range p.RepoFns {
+		for i, c := range callsTo(fn, goa) {
+			if len(c.Call.Args) < 3 {
+				continue
+			}
+			n++
+			r.Fn(FnName(fn))
+			key := fmt.Sprintf("key@%s~%d", FnName(fn), i+1)
+			keyIn := strParams(fn, c.Call.Args[1])
+			cbIn := map[string]bool{}
+			if mc, ok := c.Call.Args[2].(*ssa.MakeClosure); ok {
+				for _, b := range mc.Bindings {
+					for k := range strParams(fn, b) {
+						cbIn[k] = true
+					}
+				}
+			} else {
+				for k := range strParams(fn, c.Call.Args[2]) {
+					cbIn[k] = true
+				}
+			}
+			var missing []string
+			for k := range cbIn {
+				if !keyIn[k] {
+					missing = append(missing, k)
+				}
+			}
+			sort.Strings(missing)
+			r.Check(len(missing) == 0, key, "the key depends on every string input the callback uses", fmt.Sprintf("%s caches under a key that does not depend on %v although the cached content does: two imports that differ only there (e.g. the same root-relative spelling from scripts of two different modules) share one cache entry", FnName(fn), missing), c.Pos())
+		}
+	}
+	if n < 2 {
+		r.Undecided("sites", fmt.Sprintf("only %d GetOrAddFromCache call sites found", n), 0)
+	}
+}
+
+func init() { register("C16", Rule{"R16g", ruleCacheKeyCoversInputs}) }
